@@ -185,7 +185,7 @@ class Factor:
     def log(self, out=None):
         if out is None:
             return Factor(self.domain, np.log(self.values + 1e-100))
-        np.log(self.values, out=out.values)
+        np.log(self.values + 1e-100, out=out.values)
         return out
 
     def datavector(self, flatten=True):
